@@ -394,7 +394,28 @@ pub fn req_of(op: &'static str, max_payload: usize, max_name: usize) -> BoxedStr
     let fl = body_fields(d);
     let fstrats: Vec<BoxedStrategy<u64>> = fl.iter().map(|(_, s)| val_of_width(*s)).collect();
     let names = proptest::collection::vec(name_strategy(max_name), d.names..=d.names);
-    let payload = if d.payload {
+    let payload = if op == "WRITE" {
+        // payloads up to max_write, the boundary itself included: the advertised max_write is
+        // MAX_BUFFER_SIZE = 1 MiB (content from a seed so that the case stays small to generate)
+        prop_oneof![
+            6 => proptest::collection::vec(any::<u8>(), 0..64),
+            4 => proptest::collection::vec(any::<u8>(), 0..4200),
+            2 => proptest::collection::vec(any::<u8>(), 0..max_payload.max(1)),
+            1 => (prop_oneof![Just(1usize << 20), Just((1 << 20) - 1), Just((1 << 20) - 4096), Just(65536), Just(65537), Just(131072), Just(1 << 19)], any::<u32>())
+                .prop_map(|(n, seed)| {
+                    let mut x = seed | 1;
+                    (0..n)
+                        .map(|_| {
+                            x ^= x << 13;
+                            x ^= x >> 17;
+                            x ^= x << 5;
+                            x as u8
+                        })
+                        .collect::<Vec<u8>>()
+                }),
+        ]
+        .boxed()
+    } else if d.payload {
         prop_oneof![
             3 => proptest::collection::vec(any::<u8>(), 0..64),
             2 => proptest::collection::vec(any::<u8>(), 0..4200),
